@@ -151,6 +151,9 @@ def hOne (st : HandlerSt) (toks : List String) : HandlerSt × String :=
     match st.nodes.find? (·.1 == id), pEv rest with
     | some (_, cfg, s), some ev =>
       let (s', outs) := step cfg s ev
+      -- events and datagrams leave through two channels: events first, then sends
+      let isSend : Out → Bool := fun o => match o with | .send .. => true | _ => false
+      let outs := outs.filter (fun o => !isSend o) ++ outs.filter isSend
       let o := if outs.isEmpty then "-" else " ".intercalate (outs.map sOut)
       ({ nodes := st.nodes.map fun e => if e.1 == id then (id, cfg, s') else e },
         s!"{o} ## {sExempt s'.exempt}")
